@@ -16,7 +16,7 @@ Ks        == 1 .. 2
 Ts        == 0 .. 4
 
 Next ==
-  \/ \E q \in Seqs12(Items) : Add(q)
+  \/ \E q \in Seqs12(Items), S \in SUBSET Items : Add(q, S)
   \/ \E q \in Seqs12(Items) : Remove(q)
   \/ \E t \in Ts : SetMin(t)
   \/ \E RS \in SUBSET rest : PopNext(RS)
@@ -24,7 +24,7 @@ Next ==
   \/ StartStreaming
   \/ \E k \in Ks, RS \in SUBSET rest : PrepareStream(k, RS)
   \/ \E k \in Ks, RS \in (SUBSET rest) \cup {nextR} : Stream(k, RS)
-  \/ \E q \in {<<>>} \cup Seqs12(Handed) : FinishStreaming(q)
+  \/ \E q \in {<<>>} \cup Seqs12(Handed), S \in SUBSET Items : FinishStreaming(q, S)
 
 Spec == Init /\ [][Next]_mvars
 
